@@ -49,6 +49,7 @@ func genC07(r *simrt.Rand, tier string) any {
 	dbs := []string{"db1", "db2"}[:1+r.Intn(2)]
 	meass := []string{"cpu", "mem"}[:1+r.Intn(2)]
 	nw := 1 + r.Intn(3)
+	slow := r.Chance(35)
 	for w := 0; w < nw; w++ {
 		var ops []WOp
 		n := 2 + r.Intn(10)
@@ -56,6 +57,11 @@ func genC07(r *simrt.Rand, tier string) any {
 			op := WOp{B: g.genBatch([]string{"col", "mp", "lp"}, dbs, meass, 6, false)}
 			if r.Chance(40) {
 				op.SleepUs = int64(r.Intn(30000))
+			}
+			if slow && r.Chance(60) {
+				// long-lived workload: seconds between requests, so the WAL rotates and
+				// periodic maintenance/recovery runs while writes and outages are going on
+				op.SleepUs = int64(200000 + r.Intn(4000000))
 			}
 			ops = append(ops, op)
 		}
@@ -95,9 +101,11 @@ func runC07(planAny any, cfg simrt.Config) *simkit.Outcome {
 	var acks []*ackRec
 	var n *node
 	var queueFullSeen, walDropped, flushErrors int64
+	var walMon *walDeleteMonitor
 	res := simrt.Run(cfg, func() {
 		simrt.SetPathRoot(root)
 		n = newNode("n1", root, p.Knobs)
+		walMon = n.watchWALDeletes()
 		outageEnd := int64(0)
 		applyFaults := func() {
 			n.fb.failFrom, n.fb.failUntil = 0, 0
@@ -237,6 +245,12 @@ func runC07(planAny any, cfg simrt.Config) *simkit.Outcome {
 	out.Stats["probe.queue_full_or_errors"] += queueFullSeen
 	out.Stats["probe.wal_dropped"] += walDropped
 	out.Stats["probe.storage_failures"] += flushErrors
+	if walMon != nil {
+		out.Stats["probe.recovery_deletes_checked"] += int64(walMon.Checked)
+		if walMon.Early > 0 {
+			out.Violate("C07.wal-file-removed-by-recovery-before-its-rows-were-stored", "%s", walMon.EarlyMsg)
+		}
+	}
 	tmp := &simkit.Outcome{}
 	checkStored(tmp, "C07", n, acks, storeOpts{exactlyOnce: true})
 	// refine fingerprints with the circumstances of the run
